@@ -260,7 +260,7 @@ func (w *worker) single(o *osCtx, s string) {
 		var p any
 
 		got := sJoin(a.join, &p, s)
-		w.cmpStr(o, fJoin1, x, r.join(s), got, p)
+		w.cmpJoin(o, fJoin1, x, r.join(s), got, p)
 	}
 
 	w.aux(o, s)
@@ -438,19 +438,83 @@ func (w *worker) noteDiverging(s, t string) {
 	}
 }
 
+// joinCleanCheck is the "check" field of the decomposition oracle of Join.
+const joinCleanCheck = "join-equals-clean-of-concatenation"
+
+// cmpJoin judges one Join call against the reference and, where it disagrees,
+// asks where the disagreement comes from.
+//
+// Lesson (C13-r5m1): a disagreement may be charged to a known volume-parsing
+// defect only when it sits in a string in which the function really looks for
+// a volume. Join never parses its elements (nor its result): it concatenates
+// them and hands the concatenation to Clean, the only place where a volume is
+// looked for. Attributing by "some argument or the result is a device path"
+// excused Join(`\`, `\??`) returning the Root Local Device path `\??` as a case
+// of "avfs does not know `\??\` volumes". So:
+//
+//  1. the volume cause of a Join disagreement is taken from the concatenation
+//     alone;
+//
+//  2. every disagreement is also judged against the implementation itself:
+//     path/filepath's Join is Clean of the concatenation (checked on the
+//     reference for the instance), so the implementation's Join must be the
+//     implementation's own Clean of that same concatenation. Then the
+//     disagreement with the reference is Clean's, and may be a known finding
+//     about volumes; otherwise Join itself concatenates differently, which no
+//     volume finding can excuse — also not when the concatenation carries a
+//     disputed volume (`?:` + `\a`).
 func (w *worker) cmpJoin(o *osCtx, fn int, x args3, want, got string, p any) {
+	w.cnt.add(o.idx, fn, strCode(x.a[0], want))
+
 	if p == nil && got == want {
-		w.cnt.add(o.idx, fn, strCode(x.a[0], want))
+		return
+	}
+
+	raw := o.joinRaw(x.a[:x.n])
+
+	w.record(o, fn, o.classOf(x), strOutcome(o, want), gotStrOutcome(o, want, got, p),
+		o.volCause(args3{}, raw), "",
+		func() example { return example{Args: x.slice(), Want: q(want), Got: gotValue(got, p)} }, x.size())
+
+	if p != nil {
+		return // reported above
+	}
+
+	// the model of the reference's concatenation must reproduce the reference
+	model, self := "", ""
+
+	if raw != "" {
+		var pc any
+
+		model = o.ref.clean(raw)
+
+		if self, pc = s1(o.sut.clean, raw); pc != nil {
+			return // Clean panics on the concatenation: a finding of Clean, reported where Clean is judged
+		}
+	}
+
+	if model != want {
+		w.joinModelOff++
 
 		return
 	}
 
-	// the string Join cleans: where the volume is actually looked for
-	w.cmpStr(o, fn, x, want, got, p, o.joinRaw(x.a[:x.n]))
+	w.joinSelf++
+
+	if got == self {
+		return
+	}
+
+	w.record(o, fn, o.classOf(x), strOutcome(o, self), gotStrOutcome(o, self, got, nil), "none", joinCleanCheck,
+		func() example {
+			return example{Args: x.slice(), Want: q(self) + " (its own Clean of the concatenation " + q(raw) + ")", Got: q(got)}
+		}, x.size())
 }
 
-// joinRaw returns the string the reference Join hands to Clean (used to
-// attribute a disagreement to a volume-name cause, never as an oracle): for
+// joinRaw returns the string the reference Join hands to Clean: a copy of the
+// concatenation rules of the toolchain. It is used to attribute a disagreement
+// to a volume-name cause and, for the decomposition oracle of cmpJoin, only on
+// instances where the reference's Clean of it is the reference's Join. For
 // Windows the concatenation rules of the toolchain's join (no separator after
 // a separator or a colon, `.\` before a leading `??` element after a lone
 // separator), for Linux the non-empty suffix of elements joined by "/".
@@ -506,6 +570,17 @@ func (w *worker) triple(o *osCtx, s, t, u string) {
 
 	got := sJoin(o.sut.join, &p, s, t, u)
 	w.cmpJoin(o, fJoin3, x, o.ref.join(s, t, u), got, p)
+}
+
+// joinAny judges Join on any number (<= 3) of elements (replay).
+func (w *worker) joinAny(o *osCtx, elem []string) {
+	x := args3{n: min(len(elem), 3)}
+	copy(x.a[:], elem)
+
+	var p any
+
+	got := sJoin(o.sut.join, &p, elem...)
+	w.cmpJoin(o, [...]int{fJoin0, fJoin1, fJoin2, fJoin3}[x.n], x, o.ref.join(elem...), got, p)
 }
 
 func (w *worker) join0(o *osCtx) {
